@@ -186,6 +186,8 @@ def scenarios(thorough: bool) -> List[dict]:
     # failure of the clean-up of the FIRST attempt leaves that attempt's file, which no clause speaks about)
     out.append({'is_bytes': True, 'writes': [12000, 5], 'restart': True, 'no_faults': True})
     out.append({'is_bytes': False, 'writes': [9000], 'restart': True, 'raise_at': 1, 'no_faults': True})
+    out.append({'is_bytes': True, 'writes': [5], 'restart': True, 'no_faults': True})   # the second attempt is SHORTER than the abandoned one
+    out.append({'is_bytes': False, 'writes': [], 'restart': True, 'no_faults': True})    # ... or writes nothing at all
     out.append({'is_bytes': True, 'writes': [5], 'exit_only': True, 'no_faults': True})
     return out
 
